@@ -42,6 +42,11 @@ def queries(tier):
     WENV = ENV + ["env_aio.c", "env_msg.c"]
     qs.append(Query("allocfail-ws-read-finish-msg", "c16/wsframe.c", tus=["core/list.c"], env=WENV, defs={"FINISH": 1, "NF": 2, "SERVER": 1, "FAILMSG": 1},
                     unwind=30, timeout=300, params={"entry_point": "ws_read_finish_msg", "failing_allocation": "the message for the reassembled frames"}))
+    # the websocket custom-header list (ws_set_header / ws_set_header_ext): replacing, adding, adding a duplicate, each allocation of the call failing in turn
+    for case, cn, ks in ((0, "replace", (0, 1)), (1, "add", (0, 1, 2, 3)), (2, "add-duplicate", (0, 1, 2, 3))):
+        for k in ks:
+            qs.append(Query("allocfail-ws-set-header-%s-k%d" % (cn, k), "c16/wsframe.c", tus=["core/list.c", "core/strs.c"], env=WENV, defs={"SETHDR": case, "FAILK": k}, unwind=30, timeout=120,
+                            concrete=True, group="~c16/wsframe.c#sethdr", params={"entry_point": "ws_set_header_ext (NNG_OPT_WS_*_HEADERS, ws:header:<name>): " + cn, "failing_allocation": k}))
     # inproc hand-off of a shared message: the private copy for the receiver cannot be allocated
     from props import C01
     for q in C01.queries(tier):
